@@ -289,43 +289,6 @@ example :
 
 /-! ## hence: never below one fill per distinct line, never above one per access -/
 
-theorem fillsFrom_le (e : Nat) : ∀ (seen : List GKey) (accs : List Acc),
-    fillsFrom e seen accs ≤ (accs.filter (fun a => !a.isWrite)).length
-  | _, [] => Nat.le_refl _
-  | seen, a :: rest => by
-    have := fillsFrom_le e (a.gkey e :: seen) rest
-    simp only [fillsFrom, List.filter_cons]
-    cases a.isWrite
-    · simp only [Bool.not_false, Bool.and_true, if_true, List.length_cons]
-      split <;> omega
-    · simpa using this
-
-theorem distinct_le_fillsFrom (e : Nat) : ∀ (accs : List Acc) (seenP : List (List Nat)) (seen : List GKey),
-    (∀ k ∈ seen, k.1 ∈ seenP) → distinctFirstReads seenP accs ≤ fillsFrom e seen accs
-  | [], _, _, _ => Nat.le_refl _
-  | a :: rest, seenP, seen, h => by
-    have ih := distinct_le_fillsFrom e rest (a.point :: seenP) (a.gkey e :: seen) (by
-      intro k hk
-      rcases List.mem_cons.1 hk with rfl | hk
-      · exact List.mem_cons_self
-      · exact List.mem_cons_of_mem _ (h k hk))
-    simp only [distinctFirstReads, fillsFrom]
-    by_cases hp : a.point ∈ seenP
-    · simp [List.contains_iff_mem, hp]; omega
-    · have : a.gkey e ∉ seen := fun hk => hp (h _ hk)
-      simp [List.contains_iff_mem, hp, this]; omega
-
-theorem wbFrom_le (e : Nat) : ∀ (sd : List GKey) (accs : List Acc),
-    wbFrom e sd accs ≤ (accs.filter (fun a => a.wb)).length
-  | _, [] => Nat.le_refl _
-  | sd, a :: rest => by
-    simp only [wbFrom, List.filter_cons]
-    cases hwb : a.wb
-    · simpa using wbFrom_le e sd rest
-    · have := wbFrom_le e (a.gkey e :: sd) rest
-      simp only [if_true, List.length_cons]
-      split <;> omega
-
 /-- Buffet traffic bounds: at least one fill for every distinct line whose first access is a read
     (in a read-only trace: every distinct line touched), at most one per read access; at most one
     write-back per written-back access. -/
@@ -408,26 +371,6 @@ example : LineEquiv 4 (some 6) [⟨[0], [1], 1, true⟩, ⟨[1], [7], 7, true⟩
   simp [LineEquiv]
 
 /-! ## the cache charges what a furthest-next-use policy with bypass incurs -/
-
-theorem snextOk_of_B : ∀ {xs : Sched}, schedNextOkB xs = true → SNextOk xs
-  | [], _ => trivial
-  | x :: rest, h => by
-    simp only [schedNextOkB, Bool.and_eq_true, decide_eq_true_eq] at h
-    exact ⟨h.1, snextOk_of_B h.2⟩
-
-theorem sord_of_B : ∀ {xs : Sched}, schedOrdB xs = true → SOrd xs
-  | [], _ => trivial
-  | x :: rest, h => by
-    simp only [schedOrdB, Bool.and_eq_true, List.all_eq_true, Bool.not_eq_true', Bool.or_eq_true,
-      Bool.and_eq_false_imp, decide_eq_true_eq, decide_eq_false_iff_not] at h
-    refine ⟨?_, sord_of_B h.2⟩
-    intro y hy
-    obtain ⟨h1, h2⟩ := h.1 y hy
-    refine ⟨h1, ?_⟩
-    rintro ⟨k1, k2⟩
-    rcases h2 with h2 | h2
-    · exact absurd k2 (h2 k1)
-    · exact h2
 
 /-- `cacheTraffic` = the reference simulator (resident set; on a miss with a later use the line is
     brought in if there is room or if some resident line is needed later than it, evicting the
